@@ -549,6 +549,20 @@ func parseEntry(e []byte) *layout {
 	return l
 }
 
+// readerExecLenIsZero: what deserializeCompiledModule takes for the executable length of entry e
+func readerExecLenIsZero(e []byte, verLen int) bool {
+	h := 6 + 1 + verLen + 4
+	if len(e) < h {
+		return false
+	}
+	nf := int(binary.LittleEndian.Uint32(e[h-4:]))
+	pos := h + 8*nf
+	if nf < 0 || pos < 0 || pos+8 > len(e) {
+		return false
+	}
+	return binary.LittleEndian.Uint64(e[pos:]) == 0
+}
+
 func hexOrDash(b []byte) string {
 	if len(b) == 0 {
 		return "-"
@@ -1026,6 +1040,11 @@ func (m *modInfo) judgePlants(label string, ps []plant, rs []plantRes, useOracle
 			// accepted, but decodes to exactly the module of the complete entry (e.g. a bit of the unread
 			// checksum field of a module without code, or a source-map flag that stays != 1): harmless
 			rep.Count(label + ":accepted-decodes-to-the-same-module:" + region)
+		case cls == "hit" && !same && len(m.Lay.Exec) > 0 && readerExecLenIsZero(p.bytes, len(m.Lay.Version)):
+			// the flipped bit makes the reader take 8 zero bytes for the executable length: it then skips the
+			// checksum altogether (same root as C13-F1) and accepts an entry without code
+			bad = true
+			violate("impl-violation", "C13:corrupt-entry-accepted:executable-length-read-as-zero", "a cache entry with a flipped bit (region "+region+") was used: the reader found executable length 0 and skipped the checksum", input, "error or recompilation", actual)
 		case cls == "hit" && !same:
 			bad = true
 			violate("impl-violation", "C13:corrupt-entry-accepted:"+region, "a cache entry with a flipped bit was used (the checksum does not cover this region)", input, "error or recompilation", actual)
